@@ -1,7 +1,281 @@
-(* Proofs about Model/TimeInterval.v *)
-From AM Require Import Base.Prelude Model.Calendar Model.TimeInterval.
+(* Proofs about Model/TimeInterval.v: ContainsTime = the calendar statement; validators; Mutes; gating. *)
+From AM Require Import Base.Prelude Model.Calendar Model.TimeInterval Proofs.CalendarProofs.
 
+(* ---- clamp ---- *)
+(* After the `begin > daysInMonth -> continue` guard the two clamp calls never change the answer for a real
+   day of the month: "clamped to the month" is intersection with [1, dim]. *)
 Lemma clamp_irrelevant dim day b e :
   1 <= day <= dim -> b <= dim ->
   ((clamp b (- dim) dim <=? day) && (day <=? clamp e (- dim) dim)) = ((b <=? day) && (day <=? e)).
 Proof. intros Hd Hb. unfold clamp. repeat case_match; lia. Qed.
+
+(* ---- a field: absent = everything, otherwise some range ---- *)
+Definition in_some (f : option (list rng)) (P : rng -> Prop) : Prop :=
+  match f with None => True | Some l => exists r, In r l /\ P r end.
+
+Lemma field_ok_spec f test (P : rng -> Prop) :
+  (forall r, test r = true <-> P r) -> field_ok f test = true <-> in_some f P.
+Proof.
+  intros H. destruct f as [l|]; simpl; [|tauto].
+  rewrite existsb_exists. split; intros (r & Hin & Hr); exists r; (split; [exact Hin | apply H; exact Hr]).
+Qed.
+
+Lemma dom_match_spec dim day r :
+  1 <= day <= dim ->
+  dom_match dim day r = true <->
+  resolve_dom dim (r_b r) <= day <= resolve_dom dim (r_e r) /\ 1 <= day <= dim.
+Proof.
+  intros Hd. unfold dom_match. fold (resolve_dom dim (r_b r)). fold (resolve_dom dim (r_e r)).
+  destruct (Z.ltb_spec dim (resolve_dom dim (r_b r))) as [Hgt|Hle].
+  - split; [discriminate | lia].
+  - rewrite (clamp_irrelevant dim day _ _ Hd Hle). lia.
+Qed.
+
+Definition calendar_statement (ti : tinterval) (c : civil) : Prop :=
+  let dim := days_in_month (c_year c) (c_month c) in
+  in_some (ti_times ti) (fun r => r_b r <= c_min c < r_e r) /\
+  in_some (ti_wdays ti) (fun r => r_b r <= c_wday c <= r_e r) /\
+  in_some (ti_doms ti) (fun r => resolve_dom dim (r_b r) <= c_day c <= resolve_dom dim (r_e r) /\ 1 <= c_day c <= dim) /\
+  in_some (ti_months ti) (fun r => r_b r <= c_month c <= r_e r) /\
+  in_some (ti_years ti) (fun r => r_b r <= c_year c <= r_e r).
+
+Lemma contains_fields_spec ti c :
+  1 <= c_day c <= days_in_month (c_year c) (c_month c) ->
+  contains_fields ti c = true <-> calendar_statement ti c.
+Proof.
+  intros Hd. unfold contains_fields, calendar_statement. rewrite !andb_true_iff.
+  rewrite (field_ok_spec (ti_times ti) _ (fun r => r_b r <= c_min c < r_e r))
+    by (intros r; unfold time_match; lia).
+  rewrite (field_ok_spec (ti_doms ti) _ _ (fun r => dom_match_spec _ _ r Hd)).
+  rewrite (field_ok_spec (ti_months ti) _ (fun r => r_b r <= c_month c <= r_e r))
+    by (intros r; unfold incl_match; lia).
+  rewrite (field_ok_spec (ti_wdays ti) _ (fun r => r_b r <= c_wday c <= r_e r))
+    by (intros r; unfold incl_match; lia).
+  rewrite (field_ok_spec (ti_years ti) _ (fun r => r_b r <= c_year c <= r_e r))
+    by (intros r; unfold incl_match; lia).
+  tauto.
+Qed.
+
+Lemma spec_fields_spec ti c : spec_fields ti c = true <-> calendar_statement ti c.
+Proof.
+  unfold spec_fields, calendar_statement. cbv zeta. rewrite !andb_true_iff.
+  rewrite (field_ok_spec (ti_times ti) _ (fun r => r_b r <= c_min c < r_e r)) by (intros r; lia).
+  rewrite (field_ok_spec (ti_wdays ti) _ (fun r => r_b r <= c_wday c <= r_e r)) by (intros r; lia).
+  rewrite (field_ok_spec (ti_doms ti) _
+    (fun r => resolve_dom (days_in_month (c_year c) (c_month c)) (r_b r) <= c_day c
+              <= resolve_dom (days_in_month (c_year c) (c_month c)) (r_e r) /\
+              1 <= c_day c <= days_in_month (c_year c) (c_month c))) by (intros r; lia).
+  rewrite (field_ok_spec (ti_months ti) _ (fun r => r_b r <= c_month c <= r_e r)) by (intros r; lia).
+  rewrite (field_ok_spec (ti_years ti) _ (fun r => r_b r <= c_year c <= r_e r)) by (intros r; lia).
+  tauto.
+Qed.
+
+(* ContainsTime, for every interval, zone-offset function, instant and own offset *)
+Lemma contains_spec tz ti unix own_off :
+  contains tz ti unix own_off = true <->
+  calendar_statement ti (civil_fields (unix + eff_off tz ti unix own_off)).
+Proof.
+  unfold contains. apply contains_fields_spec.
+  destruct (civil_fields_valid (unix + eff_off tz ti unix own_off)) as (_ & H & _). exact H.
+Qed.
+
+Lemma contains_eq_spec tz ti unix own_off :
+  contains tz ti unix own_off = spec_fields ti (civil_fields (unix + eff_off tz ti unix own_off)).
+Proof.
+  apply eq_true_iff_eq. rewrite contains_spec, spec_fields_spec. reflexivity.
+Qed.
+
+(* an interval without constraints contains every instant *)
+Lemma contains_unconstrained tz loc unix own_off :
+  contains tz (mkTI None None None None None loc) unix own_off = true.
+Proof. reflexivity. Qed.
+
+(* ---- validators ---- *)
+(* an accepted day-of-month range is never empty before it is cut to the month, whatever the month length *)
+Lemma valid_dom_nonempty r dim :
+  valid_dom r = true -> 28 <= dim <= 31 -> resolve_dom dim (r_b r) <= resolve_dom dim (r_e r).
+Proof. unfold valid_dom, resolve_dom. intros H Hd. repeat case_match; lia. Qed.
+
+Lemma valid_dom_bounds r dim :
+  valid_dom r = true -> 28 <= dim <= 31 ->
+  -2 <= resolve_dom dim (r_b r) <= 31 /\ -2 <= resolve_dom dim (r_e r) <= 31.
+Proof. unfold valid_dom, resolve_dom. intros H Hd. repeat case_match; lia. Qed.
+
+Lemma valid_time_spec r : valid_time r = true <-> 0 <= r_b r < r_e r /\ r_e r <= 1440.
+Proof. unfold valid_time. lia. Qed.
+
+Lemma valid_wday_spec r : valid_wday r = true <-> 0 <= r_b r <= r_e r /\ r_e r <= 6.
+Proof. unfold valid_wday. lia. Qed.
+
+(* parseTime: exactly HH:MM with 00..23 : 00..59, or 24:00; value 60*HH+MM *)
+Lemma parse_time_spec s v :
+  parse_time s = Some v <->
+  exists h1 h2 m1 m2 a b x y,
+    s = String h1 (String h2 (String (Ascii.ascii_of_N 58) (String m1 (String m2 EmptyString)))) /\
+    digit_val h1 = Some a /\ digit_val h2 = Some b /\ digit_val m1 = Some x /\ digit_val m2 = Some y /\
+    ((10 * a + b <= 23 /\ 10 * x + y <= 59) \/ (10 * a + b = 24 /\ 10 * x + y = 0)) /\
+    v = 60 * (10 * a + b) + (10 * x + y).
+Proof.
+  split.
+  - destruct s as [|h1 [|h2 [|c [|m1 [|m2 [|? ?]]]]]]; simpl; try discriminate.
+    destruct (digit_val h1) as [a|] eqn:E1; [|discriminate].
+    destruct (digit_val h2) as [b|] eqn:E2; [|discriminate].
+    destruct (digit_val m1) as [x|] eqn:E3; [|discriminate].
+    destruct (digit_val m2) as [y|] eqn:E4; [|discriminate].
+    destruct (is_ch 58 c) eqn:Ec; simpl; [|discriminate].
+    destruct (_ || _) eqn:Er; [|discriminate]. intros [= <-].
+    exists h1, h2, m1, m2, a, b, x, y. repeat split; try assumption.
+    + unfold is_ch in Ec. apply N.eqb_eq in Ec. rewrite <- (Ascii.ascii_N_embedding c), Ec. reflexivity.
+    + lia.
+  - intros (h1 & h2 & m1 & m2 & a & b & x & y & -> & E1 & E2 & E3 & E4 & Hr & ->).
+    simpl. rewrite E1, E2, E3, E4. simpl.
+    destruct (_ || _) eqn:Er; [reflexivity | lia].
+Qed.
+
+Lemma digit_val_range a d : digit_val a = Some d -> 0 <= d <= 9.
+Proof. unfold digit_val. case_match; [|discriminate]. intros [= <-]. lia. Qed.
+
+Lemma parse_time_range_valid st en r : parse_time_range st en = Some r -> valid_time r = true.
+Proof.
+  unfold parse_time_range. case_match; [discriminate|].
+  destruct (parse_time st) as [a|] eqn:Ea; [|discriminate].
+  destruct (parse_time en) as [b|] eqn:Eb; [|discriminate].
+  case_match; [discriminate|]. intros [= <-].
+  apply parse_time_spec in Ea as (? & ? & ? & ? & a1 & a2 & a3 & a4 & _ & D1 & D2 & D3 & D4 & Hr & ->).
+  apply parse_time_spec in Eb as (? & ? & ? & ? & b1 & b2 & b3 & b4 & _ & F1 & F2 & F3 & F4 & Hr' & ->).
+  apply digit_val_range in D1, D2, D3, D4, F1, F2, F3, F4.
+  unfold valid_time. simpl. lia.
+Qed.
+
+Lemma parse_range_valid k s r : parse_range k s = Some r -> kind_valid k r = true.
+Proof.
+  unfold parse_range. destruct (match split_colon (lower s) "" with [] => _ | _ => _ end) as [x|]; [|discriminate].
+  destruct (kind_valid k x) eqn:E; [|discriminate]. intros [= <-]. exact E.
+Qed.
+
+(* ---- Intervener.Mutes ---- *)
+Definition muted_by (tz : string -> Z -> Z) (m : intervals) (names : list string) (now : Z) (n : string) : Prop :=
+  In n names /\ exists tis ti, lookup_iv n m = Some tis /\ In ti tis /\ contains tz ti now 0 = true.
+Definition all_known (m : intervals) (names : list string) : Prop :=
+  forall n, In n names -> lookup_iv n m <> None.
+
+Lemma mutes_names_ok tz m names now :
+  all_known m names ->
+  exists l, mutes_names tz m names now = Ok l /\ forall n, In n l <-> muted_by tz m names now n.
+Proof.
+  induction names as [|a r IH]; intros Hk.
+  - exists []. split; [reflexivity|]. intros n. unfold muted_by. simpl. tauto.
+  - destruct IH as (l & El & Hl). { intros n Hn. apply Hk. right. exact Hn. }
+    simpl. destruct (lookup_iv a m) as [tis|] eqn:Ea; [|exfalso; apply (Hk a); [left; reflexivity | exact Ea]].
+    rewrite El. eexists. split; [reflexivity|]. intros n. rewrite in_app_iff, in_map_iff, Hl.
+    unfold muted_by. simpl. split.
+    + intros [(ti & <- & Hf)|[Hin Hex]].
+      * apply filter_In in Hf as [Hin Hc]. split; [left; reflexivity|]. exists tis, ti. auto.
+      * split; [right; exact Hin | exact Hex].
+    + intros [[<-|Hin] (tis' & ti & Et & Hti & Hc)].
+      * left. exists ti. split; [reflexivity|]. apply filter_In. rewrite Ea in Et. injection Et as <-. auto.
+      * right. split; [exact Hin|]. exists tis', ti. auto.
+Qed.
+
+Lemma mutes_names_unknown tz m names now :
+  ~ all_known m names -> mutes_names tz m names now = Err "unknown-interval".
+Proof.
+  induction names as [|a r IH]; intros Hk.
+  - exfalso. apply Hk. intros n [].
+  - simpl. destruct (lookup_iv a m) as [tis|] eqn:Ea; [|reflexivity].
+    rewrite IH; [reflexivity|]. intros Hr. apply Hk. intros n [<-|Hn]; [congruence | apply Hr; exact Hn].
+Qed.
+
+Lemma mutes_spec tz m names now :
+  all_known m names ->
+  exists b l, mutes tz m names now = Ok (b, l) /\
+    (b = true <-> exists n, muted_by tz m names now n) /\
+    (forall n, In n l <-> muted_by tz m names now n).
+Proof.
+  intros Hk. destruct (mutes_names_ok tz m names now Hk) as (l & El & Hl).
+  unfold mutes. rewrite El. exists (negb (beq l [])), l. split; [reflexivity|]. split; [|exact Hl].
+  destruct l as [|x l'].
+  - split; [discriminate|]. intros (n & Hn). apply Hl in Hn. destruct Hn.
+  - split; [|reflexivity]. intros _. exists x. apply Hl. left. reflexivity.
+Qed.
+
+(* ---- the stages ---- *)
+Lemma mute_stage_spec tz m route gkey mute active now :
+  all_known m mute ->
+  exists p l, time_mute_stage tz m (mkCtx (Some route) (Some gkey) (Some mute) active (Some now))
+              = mkSRes p None (Some l) /\
+    (p = true <-> forall n, ~ muted_by tz m mute now n) /\
+    (forall n, In n l <-> muted_by tz m mute now n).
+Proof.
+  intros Hk. unfold time_mute_stage. simpl. destruct mute as [|a r].
+  - exists true, []. split; [reflexivity|]. unfold muted_by. simpl. split; [|tauto]. split; [|reflexivity].
+    intros _ n [[] _].
+  - destruct (mutes_spec tz m (a :: r) now Hk) as (b & l & -> & Hb & Hl).
+    exists (negb b), l. split; [reflexivity|]. split; [|exact Hl].
+    destruct b; simpl.
+    + split; [discriminate|]. intros Hn. destruct (proj1 Hb eq_refl) as (n & Hm). exfalso. exact (Hn n Hm).
+    + split; [|reflexivity]. intros _ n Hm. assert (false = true) by (apply Hb; exists n; exact Hm). discriminate.
+Qed.
+
+Lemma active_stage_spec tz m route gkey mute active now :
+  all_known m active ->
+  exists p, time_active_stage tz m (mkCtx (Some route) (Some gkey) mute (Some active) (Some now))
+            = mkSRes p None (Some (if p then [] else active)) /\
+    (p = true <-> active = [] \/ exists n, muted_by tz m active now n).
+Proof.
+  intros Hk. unfold time_active_stage. simpl. destruct active as [|a r].
+  - exists true. split; [reflexivity|]. split; [left; reflexivity | reflexivity].
+  - destruct (mutes_spec tz m (a :: r) now Hk) as (b & l & -> & Hb & _).
+    exists b. split; [reflexivity|]. rewrite Hb. split; [right; assumption | intros [?|?]; [discriminate | assumption]].
+Qed.
+
+(* MultiStage{active, mute}: the gating statement *)
+Lemma gating tz m route gkey mute active now mk0 :
+  all_known m mute -> all_known m active ->
+  let x := mkCtx (Some route) (Some gkey) (Some mute) (Some active) (Some now) in
+  let blocked_active := active <> [] /\ forall n, ~ muted_by tz m active now n in
+  let blocked_mute := exists n, muted_by tz m mute now n in
+  exists p mk, time_stages tz m x mk0 = (p, None, Some mk) /\
+    (p = true <-> ~ blocked_active /\ ~ blocked_mute) /\
+    (p = true -> mk = []) /\
+    (p = false -> mk <> []) /\
+    (blocked_active -> mk = active) /\
+    (~ blocked_active -> forall n, In n mk <-> muted_by tz m mute now n).
+Proof.
+  intros Hkm Hka x ba bm. unfold time_stages.
+  destruct (active_stage_spec tz m route gkey (Some mute) active now Hka) as (pa & Ea & Hpa).
+  destruct (mute_stage_spec tz m route gkey mute (Some active) now Hkm) as (pm & l & Em & Hpm & Hl).
+  fold x in Ea, Em. rewrite Ea. simpl.
+  assert (Hba : pa = false <-> ba).
+  { unfold ba. destruct pa.
+    - split; [discriminate|]. intros [Hne Hno]. destruct (proj1 Hpa eq_refl) as [?|(n & Hn)]; [contradiction|].
+      exfalso. exact (Hno n Hn).
+    - split; [|reflexivity]. intros _. split.
+      + intros ->. assert (false = true) by (apply Hpa; left; reflexivity). discriminate.
+      + intros n Hn. assert (false = true) by (apply Hpa; right; exists n; exact Hn). discriminate. }
+  destruct pa; simpl.
+  - (* active stage lets the alerts through *)
+    assert (Hnba : ~ ba) by (intros H; apply Hba in H; discriminate).
+    rewrite Em. simpl. exists pm, l. split; [reflexivity|].
+    assert (Hbm : pm = true <-> ~ bm).
+    { rewrite Hpm. unfold bm. split; [intros H (n & Hn); exact (H n Hn) | intros H n Hn; apply H; exists n; exact Hn]. }
+    split; [|split; [|split; [|split]]].
+    + split; [intros Hp; split; [exact Hnba | apply Hbm; exact Hp] | intros [_ H]; apply Hbm; exact H].
+    + intros Hp. destruct l as [|n l']; [reflexivity|]. exfalso.
+      apply (proj1 Hpm Hp n). apply Hl. left. reflexivity.
+    + intros Hp ->. assert (pm = true); [|congruence]. apply Hpm. intros n Hn. apply Hl in Hn. destruct Hn.
+    + intros H. contradiction.
+    + intros _. exact Hl.
+  - (* active stage blocks: the mute stage does not run *)
+    assert (Hb : ba) by (apply Hba; reflexivity).
+    exists false, active. split; [reflexivity|]. split; [|split; [|split; [|split]]].
+    + split; [discriminate | intros [H _]; contradiction].
+    + discriminate.
+    + intros _. apply Hb.
+    + intros _. reflexivity.
+    + intros H. contradiction.
+Qed.
+
+(* what the API reads back from the marker: muted iff names non-empty *)
+Lemma marker_muted_spec mk : marker_muted (Some mk) = (mk, negb (beq mk [])).
+Proof. reflexivity. Qed.
